@@ -107,6 +107,8 @@ impl Check for RequestDelivery {
 
     fn normalise(mut case: DeliveryCase) -> DeliveryCase {
         case.defs = crate::props::world::normalise_defs(case.defs, true);
+        // full account snapshots are not part of this check's input domain
+        case.steps.retain(|s| !matches!(s.event, EvSpec::AccountSnapshot { .. }));
         case
     }
 
